@@ -28,9 +28,13 @@ LOCK_REL = os.path.join(".renamify", "renamify.lock")
 DEAD_PID = 1073741823          # 2^30-1: above every possible pid_max, so kill(pid, 0) = ESRCH
 FAKE_T0 = 1_800_000_000        # wall clock served to scheduled processes (FSSHIM_TIME)
 MUTATING = ["plan", "rename", "apply", "undo", "redo", "replace"]
-FINDINGS = ["orphan_race", "stale_race", "exit_race", "malformed_blocks", "stale_live_evicted",
-            "drop_removes_foreign", "future_ts_panics", "unlocked_apply", "unlocked_undo", "unlocked_redo",
-            "unlocked_replace"]
+# slugs the check can name.  Only those listed in KNOWN_FINDINGS.txt are tolerated (ctx.known); the slugs of defects
+# that were repaired in /repo (malformed_blocks_text = empty / wrong number of colons, drop_removes_foreign,
+# future_ts_panics, unlocked_*) are not listed any more, so a return of the defect is a VIOLATION.
+FINDINGS = ["orphan_race", "stale_race", "exit_race", "stale_live_evicted", "unparsable_cleaner_race",
+            "malformed_blocks",            # a non-UTF-8 lock file
+            "malformed_blocks_text", "drop_removes_foreign", "future_ts_panics", "unlocked_apply", "unlocked_undo",
+            "unlocked_redo", "unlocked_replace"]
 
 
 def hx(s):
@@ -74,9 +78,11 @@ def seq_oracle(name, impl):
     outcome = impl.split()[0]
     if outcome == "panic":
         return "future_ts_panics" if ("ts=now+100" in name or "ts=u64max" in name) else "violation"
-    if outcome in ("eexist", "io-error:read-content"):
-        # blocked by a file that names no live holder
-        return "malformed_blocks"
+    if outcome == "io-error:read-content":
+        return "malformed_blocks"          # not UTF-8
+    if outcome == "eexist":
+        # blocked by a text file that names no live holder
+        return "malformed_blocks_text"
     if outcome == "acquired":
         return "ok" if impl.endswith("SELF:NOW gone") else "violation"
     if outcome.startswith("already-running"):
@@ -727,7 +733,7 @@ def scheduled_stage(ctx, one, model_enum):
     one("C12_witness_exit_race", "absent", 3, [0, 0, 0, 0, 1, 1, 1, 0, 0, 0, 0, 2, 2, 2, 2, 1, 1, 1, 1, 1],
         expect_findings=("exit_race",))
     one("C12_witness_malformed_blocks", "garbage", 2, [0] * 6 + [1] * 6,
-        expect_findings=("malformed_blocks",) if (ctx.cov.get("source_variant") or {}).get("abandon") != "unparsable"
+        expect_findings=("malformed_blocks_text",) if (ctx.cov.get("source_variant") or {}).get("abandon") != "unparsable"
         else ("unparsable_cleaner_race",))
     one("C12_witness_stale_live_evicted", "held:now-301", 2, [1] * 8, held_age=301, expect_findings=("stale_live_evicted",))
     one("live holder keeps a newcomer out", "held:now-10", 2, [1] * 4, held_age=10)
@@ -749,8 +755,8 @@ def scheduled_stage(ctx, one, model_enum):
     rng = ctx.rng
     variant = ctx.cov.get("source_variant") or {"abandon": "none"}
     # an unparsable file either blocks (malformed_blocks) or is cleaned up by a check-then-unlink like an orphaned one
-    f_empty = ("malformed_blocks",) if variant["abandon"] == "none" else ("unparsable_cleaner_race",)
-    f_garbage = ("unparsable_cleaner_race",) if variant["abandon"] == "unparsable" else ("malformed_blocks",)
+    f_empty = ("malformed_blocks_text",) if variant["abandon"] == "none" else ("unparsable_cleaner_race",)
+    f_garbage = ("unparsable_cleaner_race",) if variant["abandon"] == "unparsable" else ("malformed_blocks_text",)
     plan = [("orphaned", "glue", ("orphan_race",)), ("stale", "glue", ("stale_race",)),
             ("empty", "glue", f_empty), ("garbage", "glue", f_garbage),
             ("invalid", "glue", ("malformed_blocks",))]
@@ -851,7 +857,7 @@ def judge_injected(ctx, info, build):
         return
     if name in ("empty", "garbage"):
         if all(rc != 0 for rc in rcs) and "Failed to create lock file" in errs and not info["touched"]:
-            if not ctx.known("malformed_blocks"):
+            if not ctx.known("malformed_blocks_text"):
                 ctx.violation("argv", info, expected="a leftover lock file that names no live process never blocks the next command",
                               observed=errs)
         elif rcs != [0, 0]:
@@ -887,48 +893,25 @@ FINDINGS_MODULE = "RModel.Props.C12Findings"
 
 
 def prove_findings(ctx):
-    """The table-dependent witness theorems (`C12_witness_unlocked_*`, `lockers_exactly`, …) state what is wrong
-    in today's source.  If one of them no longer compiles while the main module does, the defect was repaired (or
-    moved): that is recorded as "finding no longer reproduces", not as a broken proof.  Returns the set of
-    finding slugs whose witness theorem still holds."""
-    import re
+    """`Props/C12Findings.lean` holds the defects of the pinned tree as theorems over explicit old-style constants
+    (not over the regenerated table), so it compiles whatever /repo looks like; the statements about today's source
+    are in `Props/C12.lean`.  Built and audited like the main module: every theorem counts as an obligation."""
     names = common.theorem_names(FINDINGS_MODULE)
     ctx.cov["obligations"] += len(names)
     ok, out = common.lean_build([FINDINGS_MODULE])
-    failing = set()
-    if ok:
-        hits = common.forbidden_tokens(FINDINGS_MODULE)
-        res, raw = common.audit(FINDINGS_MODULE)
-        bad = [n for n, ax in res if ax is None or not set(ax) <= common.ALLOWED_AXIOMS]
-        if hits or bad:
-            ctx.broke("proof", FINDINGS_MODULE, f"forbidden tokens {hits[:3]} / axiom audit {bad[:3]}")
-            return set()
-        ctx.cov["discharged"] += len(res)
-        ctx.cov.setdefault("theorems", []).extend(n for n, _ in res)
-    else:
-        path = os.path.join(common.LEAN, FINDINGS_MODULE.replace(".", "/") + ".lean")
-        starts = []
-        for ln, line in enumerate(open(path), 1):
-            m = re.match(r"\s*theorem\s+([\w.']+)", line)
-            if m:
-                starts.append((ln, m.group(1)))
-        rel = FINDINGS_MODULE.replace(".", "/") + ".lean"
-        other = []
-        for m in re.finditer(r"error: (\S+?):(\d+):\d+:", out):
-            if m.group(1).endswith(rel):
-                ln = int(m.group(2))
-                owner = [n for (l0, n) in starts if l0 <= ln]
-                failing.add(owner[-1] if owner else "?")
-            else:
-                other.append(m.group(0))
-        if other or not failing:
-            ctx.broke("proof", FINDINGS_MODULE, out[-1500:])
-            return set()
-        ctx.cov["discharged"] += len(names) - len(failing)
-        ctx.cov["finding_theorems_no_longer_hold"] = sorted(failing)
-        ctx.notes.append("witness theorems that no longer hold on the current source (finding no longer reproduces): "
-                         + ", ".join(sorted(failing)))
-    return {n.split("C12_witness_")[1] for n in names if "C12_witness_" in n and n.split(".")[-1] not in failing}
+    if not ok:
+        errs = [l for l in out.splitlines() if "error" in l][:12]
+        ctx.broke("proof", FINDINGS_MODULE, "\n".join(errs) or out[-1500:])
+        return set()
+    hits = common.forbidden_tokens(FINDINGS_MODULE)
+    res, raw = common.audit(FINDINGS_MODULE)
+    bad = [n for n, ax in res if ax is None or not set(ax) <= common.ALLOWED_AXIOMS]
+    if hits or bad or not res:
+        ctx.broke("proof", FINDINGS_MODULE, f"forbidden tokens {hits[:3]} / axiom audit {bad[:3]} raw={raw[-300:]}")
+        return set()
+    ctx.cov["discharged"] += len(res)
+    ctx.cov.setdefault("theorems", []).extend(n for n, _ in res)
+    return {n.split("C12_witness_")[1] for n in names if "C12_witness_" in n}
 
 
 def table_from_translator(ctx):
@@ -959,7 +942,7 @@ def run(ctx):
     table_locks = table_from_translator(ctx)
     ctx.prove("RModel.Props.C12")
     witnessed = prove_findings(ctx) if not ctx.broken else set()
-    ctx.cov["table_witnesses_hold"] = sorted(witnessed)
+    ctx.cov["old_tree_witnesses"] = sorted(witnessed)
     ok, msg = common.cargo_build()
     if not ok:
         ctx.broke("build", "cargo", msg)
@@ -979,8 +962,10 @@ def run(ctx):
         verdict = seq_oracle(name, impl)
         if verdict == "ok":
             continue
-        if verdict != "violation" and impl == model:
-            seen_slugs.add(verdict)      # re-observed in-process; the KNOWN-FINDING line is printed after the CLI replay
+        if verdict != "violation" and impl == model and (ctx.pid, verdict) in ctx.findings:
+            seen_slugs.add(verdict)
+            if verdict == "malformed_blocks":
+                ctx.known(verdict)       # a non-UTF-8 lock file: in-process is the only place where it is injected
             continue
         if seq_violations < 3:
             ctx.violation("input", {"scenario": "lockseq", "name": name, "request": req},
@@ -1097,8 +1082,8 @@ def replay_schedule(ctx, case):
              and obs["maxholders"] == int(model["maxholders"]))
     if not agree:
         ctx.broke("correspondence", "real_schedules", {"case": case, "real": obs, "model": line})
-    slug = {"orphaned": "orphan_race", "stale": "stale_race", "empty": "malformed_blocks", "garbage": "malformed_blocks",
-            "invalid": "malformed_blocks"}.get(init)
+    slug = {"orphaned": "orphan_race", "stale": "stale_race", "empty": "unparsable_cleaner_race",
+            "garbage": "unparsable_cleaner_race", "invalid": "malformed_blocks"}.get(init)
     if case.get("label", "").endswith("exit_race"):
         slug = "exit_race"
     if case.get("held_age", 0) and case["held_age"] > 300:
